@@ -98,6 +98,8 @@ _PAD = "".join("# padding line %06d ............................................
 _a_head, _a_tail = TOML["A"].split("[IRC]\n", 1)
 TOML["Ah"] = _a_head + _PAD + "[IRC]\n" + _a_tail
 TOML["Bu"] = TOML["B"].replace(CAPURL["u1"], CAPURL["u2"])
+# an origin that is listed but switched off: only entries with the value true are allowed origins
+TOML["Af"] = TOML["A"].replace('"%s" = true\n' % ORIGIN["g1"], '"%s" = true\n"%s" = false\n' % (ORIGIN["g1"], ORIGIN["g2"]))
 TOML.update({
     "Xbig": HEAD + 'SessionExpiration = "5m0s"\nMaxChannels = 7\n' + _PAD + "MaxSessions = = 3\n",
 })
@@ -108,7 +110,7 @@ TOML.update({
     "Xdur": HEAD + 'MaxChannels = 7\nSessionExpiration = "soon"\n',
     "Xhex": HEAD + 'SessionExpiration = "5m0s"\nMaxChannels = 7\nCaptchaHMACSecret = "zz"\n',
 })
-VALID = ("P", "A", "Ae", "Ab", "Ah", "B", "Bu", "C", "Cn", "Ce", "D", "E", "Z", "R")
+VALID = ("P", "A", "Ae", "Ab", "Ah", "Af", "B", "Bu", "C", "Cn", "Ce", "D", "E", "Z", "R")
 BANNED_KIND = {}
 
 
